@@ -63,12 +63,15 @@ structure OpSummary (f : FileH) (d : Dev) (f' : FileH) (d' : Dev) : Prop where
   chain : ∀ x ∈ fileChain d'.fs d'.img f', x ∈ fileChain d.fs d.img f ∨ tabView d.fs d.img x = .free
   /-- the image differs only where `f` may write -/
   diff : ∀ q, d'.img.getByte q ≠ d.img.getByte q → MayTouchData d.fs d.img f q
+  /-- the write records, classified: status byte, pieces of clusters of `f` / free clusters, read-modify-write entry
+      windows of such clusters -/
+  trace : Trace d.fs (OwnOrFree d.fs d.img f) (OwnOrFree d.fs d.img f) d d'
 
 theorem OpSummary.of_sameStore {f f' : FileH} {d d' : Dev} (hs : SameStore d d')
     (hch : fileChain d.fs d.img f' = fileChain d.fs d.img f) : OpSummary f d f' d' :=
   ⟨DevStep.of_sameStore hs, fun x _ _ => by rw [hs.fs, hs.img],
    fun x hx => by rw [hs.fs, hs.img, hch] at hx; exact Or.inl hx,
-   fun q hq => absurd (by rw [hs.img]) hq⟩
+   fun q hq => absurd (by rw [hs.img]) hq, Trace.of_sameStore hs⟩
 
 theorem execH_summary_prim (op : HOp) (hp : op.isPrim) (f : FileH) (d : Dev) (h : SimInv f d)
     (hok : op.BytesOk) :
@@ -96,13 +99,14 @@ theorem execH_summary_prim (op : HOp) (hp : op.isPrim) (f : FileH) (d : Dev) (h 
   | write bs =>
     have hbytes := hok bs (Or.inl rfl)
     have hfp := write_footprint f bs d ⟨hfa, hwf, hg, hrep, hinfo⟩ hbytes
+    have htrc := write_trace f bs d ⟨hfa, hwf, hg, hrep, hinfo⟩ hbytes
     by_cases hno : (absFile d.fs d.img f).writeLen bs.length = 0 ∨ (absFile d.fs d.img f).readCluster ≠ none
     · obtain ⟨k, f', d', hr, hs, _, _, hcore, _, htv', _, _⟩ :=
         write_sim_noalloc (fatAllocator d.fs.totalClusters d.fs.fsInfo.next) (tabView d.fs d.img) f bs d hfa hg hrep
           hwf hbytes hno
-      rw [hr] at hfp
+      rw [hr] at hfp htrc
       simp only [execH, hr]
-      refine ⟨hs, fun x _ _ => by rw [htv'], ?_, hfp⟩
+      refine ⟨hs, fun x _ _ => by rw [htv'], ?_, hfp, htrc⟩
       intro x hx
       have hc' : fileChain d'.fs d'.img f' = _ := hcore.chain
       rw [hc'] at hx
@@ -113,8 +117,8 @@ theorem execH_summary_prim (op : HOp) (hp : op.isPrim) (f : FileH) (d : Dev) (h 
         | some c => exact absurd (Or.inr (by rw [hc]; intro e; cases e)) hno
       have hw0 : (absFile d.fs d.img f).writeLen bs.length ≠ 0 := fun h0 => hno (Or.inl h0)
       rcases write_sim_alloc f bs d hfa hg hrep hwf hinfo hbytes hrcn hw0 with
-        ⟨d', hr, _, hs, hab, _, _, hdiff⟩ | ⟨k, f', d', hr, _, hs, _, _, _, _, hvf, hch⟩
-      · rw [hr] at hfp
+        ⟨d', hr, _, hs, hab, _, _, hdiff, _⟩ | ⟨k, f', d', hr, _, hs, _, _, _, _, hvf, hch, _⟩
+      · rw [hr] at hfp htrc
         simp only [execH, hr]
         have hfat : FatAgree d.fs d.img d'.img := by
           intro q h1 _
@@ -124,20 +128,21 @@ theorem execH_summary_prim (op : HOp) (hp : op.isPrim) (f : FileH) (d : Dev) (h 
             have hs42 : statusOff d.fs < 0x42 := by unfold statusOff; split <;> decide
             have := hg.status_lt
             omega
-        refine ⟨hs, fun x _ _ => by rw [hs.geom.tabView, tabView_congr hg hfat], ?_, hfp⟩
+        refine ⟨hs, fun x _ _ => by rw [hs.geom.tabView, tabView_congr hg hfat], ?_, hfp, htrc⟩
         intro x hx
         left
         have : fileChain d'.fs d'.img f = (absFile d'.fs d'.img f).chain := rfl
         rw [this, hab] at hx; exact hx
-      · rw [hr] at hfp
+      · rw [hr] at hfp htrc
         simp only [execH, hr]
-        exact ⟨hs, hvf, hch, hfp⟩
+        exact ⟨hs, hvf, hch, hfp, htrc⟩
   | truncate =>
     have hfp := truncate_footprint f d ⟨hfa, hwf, hg, hrep, hinfo⟩
-    obtain ⟨f', d', hr, hs, _, _, _, _, _, hvf, hch⟩ := truncate_sim f d hfa hg hrep hwf hinfo
-    rw [hr] at hfp
+    have htrc := truncate_trace f d ⟨hfa, hwf, hg, hrep, hinfo⟩
+    obtain ⟨f', d', hr, hs, _, _, _, _, _, hvf, hch, _⟩ := truncate_sim f d hfa hg hrep hwf hinfo
+    rw [hr] at hfp htrc
     simp only [execH, hr]
-    exact ⟨hs, fun x hx _ => hvf x hx, fun x hx => Or.inl (hch x hx), hfp⟩
+    exact ⟨hs, fun x hx _ => hvf x hx, fun x hx => Or.inl (hch x hx), hfp, htrc⟩
 
 theorem inCluster_disjoint (fs : FsState) {c c' q : Nat} (hc : 2 ≤ c) (hc' : 2 ≤ c') (hne : c ≠ c')
     (h1 : InCluster fs c q) (h2 : InCluster fs c' q) : False := by
@@ -218,6 +223,23 @@ theorem other_entry_kept {f f' g : FileH} {d d' : Dev} {eg : DirEntryEditor} (hs
     apply Classical.byContradiction
     intro hne
     exact hslot _ (by omega) (by omega) (hsum.diff _ hne)
+
+/-- the clusters `f` owns or may take only shrink along a history -/
+theorem ownOrFree_mono {f f' : FileH} {d d' : Dev} (hsum : OpSummary f d f' d')
+    (hrepf' : FileRep d'.fs d'.img f') {c : Nat} (hc : OwnOrFree d'.fs d'.img f' c) : OwnOrFree d.fs d.img f c := by
+  have hgeo := hsum.step.geom
+  rcases hc with hc | ⟨h2, ht, hfr⟩
+  · rcases hsum.chain c hc with h | h
+    · exact Or.inl h
+    · obtain ⟨a, b⟩ := hrepf'.inTab c hc
+      rw [hgeo.totalClusters] at b
+      exact Or.inr ⟨a, b, h⟩
+  · by_cases hcf : c ∈ fileChain d.fs d.img f
+    · exact Or.inl hcf
+    · by_cases hfree : tabView d.fs d.img c = .free
+      · rw [hgeo.totalClusters] at ht
+        exact Or.inr ⟨h2, ht, hfree⟩
+      · rw [hsum.view c hcf hfree] at hfr; exact absurd hfr hfree
 
 /-- positions `f` may write only shrink along a history -/
 theorem mayTouchData_mono {f f' : FileH} {d d' : Dev} (hsum : OpSummary f d f' d') (hrepf : FileRep d.fs d.img f)
